@@ -30,7 +30,7 @@ Definition hash_str (s : str) : N :=
   fold_left (fun h c => N.land (N.shiftl h 5 + h + c + 1) mask64) s 1469598103934665603.
 
 Inductive case :=
-| CFile (t : cls) (c : root) (accepted : bool) (static dynamic apps cursor : list N) (deps : list (list str))
+| CFile (t : cls) (c : root) (accepted : bool) (static dynamic apps cursor : list N) (deps : list (list str)) (wire : bool)
 | CDash (t : cls) (srcs : list str) (g : integ) (accepted : bool) (static dynamic apps : list N) (deps : list (list str))
 | CSrc (t : cls) (name : str) (g : integ) (accepted : bool) (static dynamic apps store : list N) (quiet : bool)
 | CSafe (t : cls) (s : str) (ok : bool)
@@ -59,7 +59,7 @@ Definition check_texts (model static dynamic : list N) : bool :=
 Definition check (c : case) : bool :=
   gen_ok &&
   match c with
-  | CFile t c acc st dy apps cur deps =>
+  | CFile t c acc st dy apps cur deps wire =>
       match validate_fix (mk_uni t) G c with
       | None => negb acc && is_nil st && is_nil dy && is_nil apps && is_nil cur && is_nil deps
       | Some c' =>
@@ -70,7 +70,10 @@ Definition check (c : case) : bool :=
           (* on the wire of the pool: NewTask's statement for every task when the load
              succeeds (else for some of the references that resolve: map order), and
              only constant cursor statements *)
-          && (if load_ok (sources c') (integs c')
+          (* wire = false: a source URL does not parse, the process exits in loadTasks
+             (jrpc2.MustURL) and the configuration is not run against the pool *)
+          && (if negb wire then is_nil apps
+              else if load_ok (sources c') (integs c')
               then list_eqb N.eqb (sortN (pool_texts model)) (sortN apps)
               else forallb (fun a => existsb (N.eqb a) (pool_texts model)) apps)
           && forallb (fun x => existsb (N.eqb x) (map hash_str cursor_texts)) cur
